@@ -82,6 +82,9 @@ func genHeapPlan(t *rapid.T) HeapPlan {
 			o.Pri = genPri(t, wide)
 		case "Grow", "Shrink":
 			o.N = rapid.IntRange(0, 20).Draw(t, "n")
+			if rapid.IntRange(0, 3).Draw(t, "bign") == 0 { // room for hundreds or thousands (a bulk load is announced)
+				o.N = rapid.SampledFrom([]int{255, 256, 300, 1024, 5000}).Draw(t, "nbig")
+			}
 		case "PopN":
 			o.N = rapid.IntRange(1, 12).Draw(t, "n")
 		case "PushN":
@@ -368,6 +371,9 @@ func genQueuePlan(t *rapid.T) QueuePlan {
 			o.N = rapid.IntRange(2, 6).Draw(t, "n")
 		case "Grow":
 			o.N = rapid.IntRange(0, 30).Draw(t, "n")
+			if rapid.IntRange(0, 2).Draw(t, "bign") == 0 { // room for hundreds or thousands (a bulk load is announced)
+				o.N = rapid.SampledFrom([]int{255, 256, 300, 1024, 5000}).Draw(t, "nbig")
+			}
 		}
 		p.Ops = append(p.Ops, o)
 	}
